@@ -74,11 +74,11 @@ def _gen_op(r):
             b = ['num', str(r.randint(0, 40))]
         return {'kind': 'bin', 'op': op, 'prog': ['assign', 'r', ['bin', op, _operand(r), b]]}
     if k == 'short':
-        op = r.choice(['+=', '-=', '*=', '/=', '*=', '*='])
+        op = r.choice(['+=', '-=', '*=', '/=', '*=', '*=', '**='])
         tgt = r.choice(VARS + ['s', 'l', 'r'])
         return {'kind': 'short', 'op': op, 'prog': ['short', tgt, op, _operand(r)]}
     if k == 'setitemop':
-        op = r.choice(['+=', '-=', '*=', '/=', '*='])
+        op = r.choice(['+=', '-=', '*=', '/=', '*=', '**='])
         return {'kind': 'setitemop', 'op': op, 'prog': ['setitemop', ['name', 'c'], ['str', r.choice(['k', 'q'])], op, _operand(r)]}
     if k == 'neg':
         return {'kind': 'neg', 'op': 'neg', 'prog': ['assign', 'r', ['neg', _operand(r)]]}
@@ -189,7 +189,7 @@ def execute(case, ctx):
                 interesting = True
         if rout.kind != 'value':
             ctx.probe('arithmetic_error')
-            if kind in ('bin', 'short', 'setitemop') and op['op'] in ('*', '*=', '**') and operands and not all(_is_num(o) for o in operands):
+            if kind in ('bin', 'short', 'setitemop') and op['op'] in ('*', '*=', '**', '**=') and operands and not all(_is_num(o) for o in operands):
                 ctx.probe('mul_on_non_number_refused')
             judged += 1
             continue
@@ -203,7 +203,7 @@ def execute(case, ctx):
         judged += 1
         if kind == 'builtin':
             continue            # judged by the builtin monitor above (arguments are known exactly there)
-        if op['op'] in ('*', '**', '*='):
+        if op['op'] in ('*', '**', '*=', '**='):
             if op['op'] == '*=':
                 ctx.probe('compound_index_mul' if kind == 'setitemop' else 'compound_mul')
             if op['op'] == '**':
